@@ -157,9 +157,10 @@ class DisplayOracle:
         if self.viol is None:
             if self.sig_hint and sig in ("screen-mismatch", "missing-output"):
                 sig = self.sig_hint
-            for tag in ("progress-frame-exceeds-screen", "transient-frame-fills-screen"):
+            for tag, tag_sig in (("progress-frame-exceeds-screen",) * 2, ("transient-frame-fills-screen",) * 2,
+                                 ("print-without-newline-while-live", "partial-line-overwritten")):
                 if tag in self.tags:
-                    sig = tag
+                    sig = tag_sig
                     break
             else:
                 if self.tracker is not None and self._cur_write is not None and (
